@@ -7,7 +7,9 @@
 //!   ["a",c,"hex"]    Arrive c bytes       bytes become readable on c
 //!   ["c",c]          CloseRead c          end of stream on c
 //!   ["fr",c]         FailRead c           read error on c
-//!   ["fw",c,k]       FailWrite c k        the k-th write call (0-based) on c fails
+//!   ["fw",c,k]       FailWrite c k        the k-th write call (0-based) on c fails (Error::SocketWrite)
+//!   ["fw",c,k,kind]  ... with Error::Io(io::Error::from(kind)): Interrupted, WouldBlock, TimedOut, BrokenPipe,
+//!                                        ConnectionReset, UnexpectedEof, Other
 //!   ["si",key,v,f]   StreamItem key v f   the stream(s) named `key` get an item (f: 0 none,1 true,2 false)
 //!   ["se",key]       StreamEnd key        ... get end-of-stream
 //!   ["p"]            Poll                 poll the server future once
@@ -111,6 +113,8 @@ struct SockState {
     evs: VecDeque<Ev>,
     wcnt: u64,
     wfail: Vec<u64>,
+    /// io::ErrorKind of a failing write (by write index); absent = Error::SocketWrite
+    wkind: BTreeMap<u64, String>,
     dropped: bool,
     eof_reads: u64,
     accepted: bool,
@@ -204,7 +208,20 @@ impl WriteHalf for SockW {
             }
             if s.wfail.contains(&k) {
                 tr.borrow_mut().push(vec![4, c]);
-                Poll::Ready(Err(zlink_core::Error::SocketWrite))
+                use std::io::ErrorKind as K;
+                let err = match s.wkind.get(&k).map(|x| x.as_str()) {
+                    None => zlink_core::Error::SocketWrite,
+                    Some(kind) => zlink_core::Error::Io(std::io::Error::from(match kind {
+                        "Interrupted" => K::Interrupted,
+                        "WouldBlock" => K::WouldBlock,
+                        "TimedOut" => K::TimedOut,
+                        "BrokenPipe" => K::BrokenPipe,
+                        "ConnectionReset" => K::ConnectionReset,
+                        "UnexpectedEof" => K::UnexpectedEof,
+                        _ => K::Other,
+                    })),
+                };
+                Poll::Ready(Err(err))
             } else {
                 let mut e = vec![3, c];
                 e.extend(buf.iter().map(|b| *b as u64));
@@ -326,6 +343,8 @@ struct CStream {
     q: SQueue,
     trace: Trace,
     open: Open,
+    /// the stream is NOT fused: polling it again after it returned None is an error of the caller
+    ended: bool,
 }
 /// number of live reply streams per name
 type Open = Rc<RefCell<BTreeMap<u64, i64>>>;
@@ -340,8 +359,12 @@ fn cont_of(f: u64) -> Option<bool> {
 
 impl Stream for CStream {
     type Item = Reply<IP>;
-    fn poll_next(self: Pin<&mut Self>, _cx: &mut Context<'_>) -> Poll<Option<Reply<IP>>> {
-        let mut q = self.q.borrow_mut();
+    fn poll_next(mut self: Pin<&mut Self>, _cx: &mut Context<'_>) -> Poll<Option<Reply<IP>>> {
+        if self.ended {
+            panic!("the reply stream {} was polled again after it had ended (it is not fused)", self.key);
+        }
+        let q = self.q.clone();
+        let mut q = q.borrow_mut();
         match q.iter().position(|(k, _)| *k == self.key) {
             None => {
                 note_pend();
@@ -354,6 +377,7 @@ impl Stream for CStream {
                 }
                 SEv::End => {
                     self.trace.borrow_mut().push(vec![8, self.key, 0, 0, 0]);
+                    self.ended = true;
                     Poll::Ready(None)
                 }
             },
@@ -426,6 +450,7 @@ impl Service for Svc {
                     q: self.q.clone(),
                     trace: self.trace.clone(),
                     open: self.open.clone(),
+                    ended: false,
                 })
             }
         }
@@ -560,6 +585,9 @@ fn run_case(case: &Value) -> Value {
             "fw" => {
                 if let Some(s) = sock(1) {
                     s.borrow_mut().wfail.push(num(&a[2]));
+                    if let Some(kind) = a.get(3).and_then(|k| k.as_str()) {
+                        s.borrow_mut().wkind.insert(num(&a[2]), kind.to_string());
+                    }
                 }
             }
             "hg" => {
